@@ -72,7 +72,7 @@ Lemma cfg_loop_spec a lib_cfg s : forall opts c c',
    clean_cfg c').
 Proof.
   induction opts as [|[o1 ty1] opts IH]; intros c c' H Hs Hnd; cbn [cfg_loop] in H.
-  - apply OK_inj in H. subst c'. repeat split; auto.
+  - apply OK_inj in H. subst c'. split; [reflexivity|]. split; [exact Hs|]. split; [intro o; reflexivity | intros Hc _; exact Hc].
   - cbn [map fst] in Hnd. inversion Hnd as [|? ? Hn1 Hnd']; subst.
     assert (Skip : cfg_loop a lib_cfg s c opts = OK c' ->
                    will_write a lib_cfg (assoc (T "clientuid") (c_defaults c)) o1 ty1 = None ->
@@ -88,7 +88,7 @@ Proof.
                    (clean_cfg c ->
                     (forall o ty t, In (o, ty) ((o1, ty1) :: opts) -> will_write a lib_cfg (assoc (T "clientuid") (c_defaults c)) o ty = Some t ->
                                     clean_key o = true /\ clean_value t = true) -> clean_cfg c')).
-    { intros H' Hw. destruct (IH _ _ H' Hs Hnd') as (I1 & I2 & I3 & I4). repeat split; auto.
+    { intros H' Hw. destruct (IH _ _ H' Hs Hnd') as (I1 & I2 & I3 & I4). split; [exact I1|]. split; [exact I2|]. split.
       - intro o. rewrite I3. cbn [assoc]. destruct (text_eqb o o1) eqn:E; [|reflexivity].
         apply text_eqb_eq in E. subst o. rewrite Hw. apply assoc_None_keys in Hn1. rewrite Hn1. reflexivity.
       - intros Hc Hcl. apply I4; auto. intros o ty t Hin. apply Hcl. right. exact Hin. }
@@ -96,7 +96,7 @@ Proof.
     apply bind_ok in H. destruct H as (w & Hw & H). rewrite Hw in Skip. destruct w; [|apply Skip; auto].
     apply bind_ok in H. destruct H as (t1 & Ht1 & H). clear Skip.
     destruct (sect_set_section c s o1 t1 o1 Hs) as (_ & Sd & Sh).
-    destruct (IH _ _ H Sh Hnd') as (I1 & I2 & I3 & I4). rewrite Sd in *. repeat split; auto.
+    destruct (IH _ _ H Sh Hnd') as (I1 & I2 & I3 & I4). rewrite Sd in *. split; [exact I1|]. split; [exact I2|]. split.
     + intro o. rewrite I3. destruct (sect_set_section c s o1 t1 o Hs) as (Sg & _ & _). rewrite Sg. cbn [assoc].
       destruct (text_eqb o o1) eqn:E.
       * apply text_eqb_eq in E. subst o. apply assoc_None_keys in Hn1. rewrite Hn1.
@@ -215,7 +215,7 @@ Proof.
   destruct (cfg_loop_spec _ _ _ _ _ _ H H3 configurable_nodup) as (L1 & L2 & L3 & L4).
   assert (Duid : assoc (T "clientuid") (c_defaults c3) = Some duid).
   { rewrite D3, D2. reflexivity. }
-  rewrite Duid in *. repeat split; auto.
+  rewrite Duid in *. split; [exact L2|]. split; [|split].
   - intro o. rewrite L1, D3. apply D2.
   - intro o. rewrite L3, G3. reflexivity.
   - intros Hu Hm Hc Huuid Hname Hvals. apply L4.
@@ -228,6 +228,6 @@ Proof.
       subst c3. destruct (has_key s (c_sections c2)) eqn:E; [exact C2|].
       destruct C2 as [Cw Cd Cs]. constructor; cbn [c_defaults c_sections]; auto.
       * apply wfk_add; auto.
-      * rewrite forallb_app, Cs. cbn [forallb clean_section fst snd]. rewrite Hname. reflexivity.
+      * rewrite forallb_app, Cs. cbn [forallb]. unfold clean_section. cbn [fst snd forallb]. rewrite Hname. reflexivity.
     + intros o ty t Hin Hw. split; [eapply configurable_keys_clean; exact Hin | eapply Hvals; eassumption].
 Qed.
